@@ -13,6 +13,10 @@ import (
 type ObjectBuilder struct {
 	schema   *jschema.JSchema
 	rootNode *ischema.ObjectNode
+
+	// asts the AST nodes of the properties which are known better than they can
+	// be built from the nodes (the properties taken from a compiled user type).
+	asts map[string]schema.ASTNode
 }
 
 // NewObjectBuilder used only for building Path variables in the JSight API library
@@ -28,10 +32,19 @@ func NewObjectBuilder() ObjectBuilder {
 	return ObjectBuilder{
 		schema:   s,
 		rootNode: objNode,
+		asts:     make(map[string]schema.ASTNode, 3),
 	}
 }
 
-func (b ObjectBuilder) AddProperty(key string, node ischema.Node, types map[string]ischema.Type) {
+func (b ObjectBuilder) AddProperty(
+	key string,
+	node ischema.Node,
+	types map[string]ischema.Type,
+	ast *schema.ASTNode,
+) {
+	if ast != nil {
+		b.asts[key] = *ast
+	}
 	k := ischema.ObjectNodeKey{
 		Key:        key,
 		IsShortcut: false,
@@ -79,6 +92,12 @@ func (b ObjectBuilder) Build() *jschema.JSchema {
 			err = panics.Handle(recover(), err)
 		}()
 		s.ASTNode = s.BuildASTNode()
+		for i, c := range s.ASTNode.Children {
+			if an, ok := b.asts[c.Key]; ok {
+				an.Key, an.IsKeyShortcut, an.InheritedFrom = c.Key, c.IsKeyShortcut, c.InheritedFrom
+				s.ASTNode.Children[i] = an
+			}
+		}
 		loader.CompileBasic(s.Inner, s.AreKeysOptionalByDefault)
 		return nil
 	})
